@@ -39,6 +39,7 @@ func monC20(c *drv.Ctx) {
 	c.Stage("lengths", int64(len(lens)*len(convs)), true, func(cs *drv.Case) {
 		cv := convs[cs.Idx%int64(len(convs))]
 		l := lens[cs.Idx/int64(len(convs))]
+		cs.Desc = M{"variant": cv.name, "len": l, "spare_capacities": "0,1,48", "substring_offsets": "0,1,16,19"}
 		fail := func(check, msg string, a ...interface{}) {
 			cs.Fail(check, M{"variant": cv.name}, M{"len": l, "message": fmt.Sprintf(msg, a...)})
 		}
